@@ -302,13 +302,22 @@ class Ocp(Stage):
     def save(self,name):
         self._untranscribe()
         # An OCP that was edited after a transcription still references that stale transcription
-        # (with its Opti object, which cannot be serialized): drop it, the next query transcribes anew
-        self._untranscribe_recurse(phase=1)
-        for s in self.iter_stages(include_self=True):
-            s._var_augmented = None
+        # (with its Opti object, which cannot be serialized): it is dropped for pickling only.  The method objects are
+        # shared with the transcription an earlier solution object reads through, so they are restored afterwards.
+        stages = list(self.iter_stages(include_self=True))
+        snapshot = [(s, s._var_augmented, s._method, dict(s._method.__dict__)) for s in stages]
         import pickle
-        with rockit_pickle_context():
-            pickle.dump(self,open(name,"wb"))
+        try:
+            self._untranscribe_recurse(phase=1)
+            for s in stages:
+                s._var_augmented = None
+            with rockit_pickle_context():
+                pickle.dump(self,open(name,"wb"))
+        finally:
+            for s, augmented, method, state in snapshot:
+                method.__dict__.clear()
+                method.__dict__.update(state)
+                s._var_augmented = augmented
 
     @staticmethod
     def load(name):
